@@ -1,2 +1,818 @@
+/-
+  Helper lemmas for Props/C07.lean (GPOS attachment propagation, cursive, kern).  Core Lean only.
+-/
 import RbModel.Gpos
 import RbModel.Kern
+
+namespace RbModel.Gpos
+
+/-! ### get / put -/
+
+theorem get_ok_iff {p : Array Pos} {i : Nat} {x : Pos} : get p i = .ok x ↔ p[i]? = some x := by
+  unfold get; split <;> simp_all
+
+theorem get_err {p : Array Pos} {i : Nat} {e : Err} (h : get p i = .error e) : e = .oob ∧ p.size ≤ i := by
+  unfold get at h; split at h
+  · cases h
+  · rename_i hn; simp at hn; cases h; exact ⟨rfl, hn⟩
+
+theorem get_of_lt {p : Array Pos} {i : Nat} (h : i < p.size) : get p i = .ok p[i] := by
+  rw [get_ok_iff]; simp [h]
+
+@[simp] theorem put_size (p : Array Pos) (i : Nat) (v : Pos) : (put p i v).size = p.size := by
+  simp [put]
+
+theorem put_get? (p : Array Pos) (i k : Nat) (v : Pos) :
+    (put p i v)[k]? = if i = k then (if i < p.size then some v else none) else p[k]? := by
+  unfold put
+  rw [Array.getElem?_setIfInBounds]
+
+theorem put_get?_ne (p : Array Pos) {i k : Nat} (v : Pos) (h : i ≠ k) : (put p i v)[k]? = p[k]? := by
+  rw [put_get?]; simp [h]
+
+theorem put_get?_self (p : Array Pos) {i : Nat} (v : Pos) (h : i < p.size) : (put p i v)[i]? = some v := by
+  rw [put_get?]; simp [h]
+
+theorem lt_of_get? {p : Array Pos} {i : Nat} {x : Pos} (h : p[i]? = some x) : i < p.size := by
+  by_cases hi : i < p.size
+  · exact hi
+  · simp [Array.getElem?_eq_none (Nat.le_of_not_lt hi)] at h
+
+/-! ### advance sums -/
+
+/-- pure version of `sumAdv` (out-of-range entries count 0; only used in range) -/
+def advSum (p : Array Pos) : Nat → Nat → Int × Int
+  | _, 0 => (0, 0)
+  | lo, n + 1 =>
+    let q := (p[lo]?).getD {}
+    let r := advSum p (lo + 1) n
+    (q.xa + r.1, q.ya + r.2)
+
+theorem sumAdv_eq (p : Array Pos) (lo n : Nat) (h : lo + n ≤ p.size) :
+    sumAdv p lo n = .ok (advSum p lo n) := by
+  induction n generalizing lo with
+  | zero => rfl
+  | succ n ih =>
+    have hlo : lo < p.size := by omega
+    simp only [sumAdv, advSum]
+    rw [get_of_lt hlo, ih (lo + 1) (by omega)]
+    simp [hlo, bind, Except.bind]
+
+theorem sumAdv_err {p : Array Pos} {lo n : Nat} {e : Err} (h : sumAdv p lo n = .error e) : ¬ lo + n ≤ p.size := by
+  intro hle; rw [sumAdv_eq p lo n hle] at h; cases h
+
+theorem advSum_congr (p o : Array Pos) (lo n : Nat)
+    (h : ∀ k, lo ≤ k → k < lo + n → ((p[k]?).getD {}).xa = ((o[k]?).getD {}).xa ∧ ((p[k]?).getD {}).ya = ((o[k]?).getD {}).ya) :
+    advSum p lo n = advSum o lo n := by
+  induction n generalizing lo with
+  | zero => rfl
+  | succ n ih =>
+    simp only [advSum]
+    rw [ih (lo + 1) (fun k h1 h2 => h k (by omega) (by omega))]
+    have := h lo (Nat.le_refl _) (by omega)
+    rw [this.1, this.2]
+
+theorem advSum_split (p : Array Pos) (lo m n : Nat) :
+    advSum p lo (m + n) = ((advSum p lo m).1 + (advSum p (lo + m) n).1, (advSum p lo m).2 + (advSum p (lo + m) n).2) := by
+  induction m generalizing lo with
+  | zero => simp [advSum]
+  | succ m ih =>
+    have : m + 1 + n = (m + n) + 1 := by omega
+    rw [this]
+    simp only [advSum]
+    rw [ih (lo + 1)]
+    have h2 : lo + 1 + m = lo + (m + 1) := by omega
+    rw [h2]
+    ext <;> simp <;> omega
+
+/-! ### the termination measure -/
+
+
+theorem nz_le_size (p : Array Pos) : nz p ≤ p.size := Array.countP_le_size
+
+theorem put_eq_set (p : Array Pos) {i : Nat} (v : Pos) (h : i < p.size) : put p i v = p.set i v h := by
+  simp [put, Array.setIfInBounds, h]
+
+theorem nz_put {p : Array Pos} {i : Nat} {qi : Pos} (v : Pos) (h : p[i]? = some qi) :
+    nz (put p i v) + (if qi.chain != 0 then 1 else 0) = nz p + (if v.chain != 0 then 1 else 0) := by
+  have hi := lt_of_get? h
+  have hq : p[i] = qi := by simpa [hi] using h
+  rw [put_eq_set p v hi]
+  unfold nz
+  rw [Array.countP_set hi]
+  have := Array.boole_getElem_le_countP (p := fun q : Pos => q.chain != 0) (xs := p) (i := i) (h := hi)
+  rw [hq] at this ⊢
+  omega
+
+
+/-! ### attachStep -/
+
+
+theorem put_self {p : Array Pos} {i : Nat} {qi : Pos} (h : p[i]? = some qi) : put p i qi = p := by
+  apply Array.ext_getElem?
+  intro k
+  rw [put_get?]
+  split
+  · rename_i hk; subst hk; simp [lt_of_get? h]; simp [lt_of_get? h] at h; exact h.symm
+  · rfl
+
+def attachOff (d : Dir) (kind : Nat) (a c : Pos) (sf sb : Int × Int) : Int × Int :=
+  if kind = ATTACH_MARK then
+    if d.isForward then (a.xo + c.xo - sf.1, a.yo + c.yo - sf.2) else (a.xo + c.xo + sb.1, a.yo + c.yo + sb.2)
+  else if kind = ATTACH_CURSIVE then
+    if d.isHorizontal then (a.xo, a.yo + c.yo) else (a.xo + c.xo, a.yo)
+  else (a.xo, a.yo)
+
+theorem attachStep_spec {d : Dir} {kind : Nat} {p q : Array Pos} {i j : Nat} {qi qj : Pos}
+    (hi : p[i]? = some qi) (hj : p[j]? = some qj) (h : attachStep d kind p i j = .ok q) :
+    ∃ v, q = put p i v ∧ v.xa = qi.xa ∧ v.ya = qi.ya ∧ v.chain = qi.chain ∧ v.atype = qi.atype ∧
+      (v.xo, v.yo) = attachOff d kind qi qj (advSum p j (i - j)) (advSum p (j + 1) (i - j)) ∧
+      (kind = ATTACH_MARK → j < i) := by
+  have hgi := get_ok_iff.mpr hi
+  have hgj := get_ok_iff.mpr hj
+  have hisz := lt_of_get? hi
+  unfold attachStep at h
+  by_cases hk1 : kind = ATTACH_MARK
+  · simp only [hk1, if_true, hgi, hgj] at h
+    by_cases hji : j < i
+    · simp only [hji, not_true_eq_false, if_false] at h
+      cases hf : d.isForward
+      · simp only [hf, Bool.false_eq_true, if_false] at h
+        rw [sumAdv_eq p (j + 1) (i - j) (by omega)] at h
+        simp only [Except.ok.injEq] at h
+        refine ⟨_, h.symm, rfl, rfl, rfl, rfl, ?_, fun _ => hji⟩
+        simp [attachOff, hk1, hf]
+      · simp only [hf, if_true] at h
+        rw [sumAdv_eq p j (i - j) (by omega)] at h
+        simp only [Except.ok.injEq] at h
+        refine ⟨_, h.symm, rfl, rfl, rfl, rfl, ?_, fun _ => hji⟩
+        simp [attachOff, hk1, hf]
+    · simp [hji] at h
+  · by_cases hk2 : kind = ATTACH_CURSIVE
+    · simp only [hk1, hk2, if_true, if_false, hgi, hgj] at h
+      have h12 : ATTACH_CURSIVE ≠ ATTACH_MARK := by decide
+      simp only [h12, if_false] at h
+      cases hh : d.isHorizontal
+      · simp only [hh, Bool.false_eq_true, if_false, Except.ok.injEq] at h
+        refine ⟨_, h.symm, rfl, rfl, rfl, rfl, ?_, fun hc => absurd hc hk1⟩
+        simp [attachOff, hk2, h12, hh]
+      · simp only [hh, if_true, Except.ok.injEq] at h
+        refine ⟨_, h.symm, rfl, rfl, rfl, rfl, ?_, fun hc => absurd hc hk1⟩
+        simp [attachOff, hk2, h12, hh]
+    · simp only [hk1, hk2, if_false, Except.ok.injEq] at h
+      refine ⟨qi, ?_, rfl, rfl, rfl, rfl, ?_, fun hc => absurd hc hk1⟩
+      · rw [put_self hi]; exact h.symm
+      · simp [attachOff, hk1, hk2]
+
+theorem attachStep_total {d : Dir} {kind : Nat} {p : Array Pos} {i j : Nat}
+    (hi : i < p.size) (hj : j < p.size) (hm : kind = ATTACH_MARK → j < i) :
+    ∃ q, attachStep d kind p i j = .ok q := by
+  unfold attachStep
+  rw [get_of_lt hi, get_of_lt hj]
+  by_cases hk1 : kind = ATTACH_MARK
+  · have hji := hm hk1
+    simp only [hk1, if_true, hji, not_true_eq_false, if_false]
+    rw [sumAdv_eq p j (i - j) (by omega), sumAdv_eq p (j + 1) (i - j) (by omega)]
+    split <;> exact ⟨_, rfl⟩
+  · simp only [hk1, if_false]
+    split
+    · split <;> exact ⟨_, rfl⟩
+    · exact ⟨_, rfl⟩
+
+
+/-! ### propagate: case analysis -/
+
+
+theorem propagate_ok_cases {fuel : Nat} {p q : Array Pos} {len i dep : Nat} {d : Dir}
+    (h : propagate (fuel + 1) p len i d = .ok (q, dep)) :
+    ∃ pi, p[i]? = some pi ∧
+     ( (pi.chain = 0 ∧ q = p ∧ dep = 1)
+     ∨ (pi.chain ≠ 0 ∧ target i pi.chain len = none ∧ q = put p i { pi with chain := 0 } ∧ dep = 1)
+     ∨ (pi.chain ≠ 0 ∧ ∃ j p2 dep', target i pi.chain len = some j ∧
+          propagate fuel (put p i { pi with chain := 0 }) len j d = .ok (p2, dep') ∧
+          attachStep d pi.atype p2 i j = .ok q ∧ dep = dep' + 1)) := by
+  unfold propagate at h
+  split at h
+  · cases h
+  · rename_i pi hg
+    refine ⟨pi, get_ok_iff.mp hg, ?_⟩
+    split at h
+    · rename_i hc
+      simp only [Except.ok.injEq, Prod.mk.injEq] at h
+      exact Or.inl ⟨hc, h.1.symm, h.2.symm⟩
+    · rename_i hc
+      simp only at h
+      split at h
+      · rename_i ht
+        simp only [Except.ok.injEq, Prod.mk.injEq] at h
+        exact Or.inr (Or.inl ⟨hc, ht, h.1.symm, h.2.symm⟩)
+      · rename_i j ht
+        split at h
+        · cases h
+        · rename_i p2 dep' hr
+          split at h
+          · cases h
+          · rename_i q' ha
+            simp only [Except.ok.injEq, Prod.mk.injEq] at h
+            refine Or.inr (Or.inr ⟨hc, j, p2, dep', ht, hr, ?_, h.2.symm⟩)
+            rw [ha, h.1]
+
+theorem target_some {i : Nat} {c : Int} {len j : Nat} (h : target i c len = some j) :
+    (j : Int) = (i : Int) + c ∧ j < len := by
+  unfold target at h
+  simp only at h
+  split at h
+  · cases h
+  · split at h
+    · cases h
+    · simp only [Option.some.injEq] at h
+      omega
+
+
+/-! ### propagate: sizes, frame, fuel and depth -/
+
+
+/-- the fields `propagate` never changes, and the only way it changes `chain` -/
+def Stable (b b' : Pos) : Prop :=
+  b'.xa = b.xa ∧ b'.ya = b.ya ∧ b'.atype = b.atype ∧ (b'.chain = b.chain ∨ b'.chain = 0)
+
+theorem Stable.refl (b : Pos) : Stable b b := ⟨rfl, rfl, rfl, Or.inl rfl⟩
+
+theorem Stable.trans {a b c : Pos} (h1 : Stable a b) (h2 : Stable b c) : Stable a c := by
+  obtain ⟨a1, a2, a3, a4⟩ := h1
+  obtain ⟨b1, b2, b3, b4⟩ := h2
+  refine ⟨by omega, by omega, by omega, ?_⟩
+  rcases a4 with a4 | a4 <;> rcases b4 with b4 | b4 <;> simp_all
+
+theorem propagate_basic (len : Nat) (d : Dir) :
+    ∀ (fuel : Nat) (p q : Array Pos) (i dep : Nat), propagate fuel p len i d = .ok (q, dep) →
+      q.size = p.size ∧ nz q ≤ nz p ∧ 1 ≤ dep ∧ dep ≤ nz p + 1 ∧
+      (∀ (k : Nat) (b : Pos), p[k]? = some b → b.chain = 0 → q[k]? = some b) ∧
+      (∀ (k : Nat) (b : Pos), p[k]? = some b → ∃ b', q[k]? = some b' ∧ Stable b b') ∧
+      (∀ b : Pos, q[i]? = some b → b.chain = 0) := by
+  intro fuel
+  induction fuel with
+  | zero => intro p q i dep h; simp [propagate] at h
+  | succ fuel ih =>
+    intro p q i dep h
+    obtain ⟨pi, hpi, hcase⟩ := propagate_ok_cases h
+    have hisz := lt_of_get? hpi
+    rcases hcase with ⟨hc, rfl, rfl⟩ | ⟨hc, _, rfl, rfl⟩ | ⟨hc, j, p2, dep', ht, hrec, hatt, rfl⟩
+    · refine ⟨rfl, Nat.le_refl _, Nat.le_refl _, by omega, fun k b hk _ => hk, fun k b hk => ⟨b, hk, Stable.refl b⟩, ?_⟩
+      intro b hb; rw [hpi] at hb; cases hb; exact hc
+    · have hnz := nz_put (v := { pi with chain := 0 }) hpi
+      simp only [bne_iff_ne, ne_eq, hc, not_false_eq_true, if_true, not_true_eq_false, if_false] at hnz
+      refine ⟨by simp, by omega, Nat.le_refl _, by omega, ?_, ?_, ?_⟩
+      · intro k b hk hb
+        have : i ≠ k := by intro e; subst e; rw [hpi] at hk; cases hk; exact hc hb
+        rw [put_get?_ne _ _ this]; exact hk
+      · intro k b hk
+        by_cases e : i = k
+        · subst e; rw [hpi] at hk; cases hk
+          exact ⟨_, put_get?_self _ _ hisz, rfl, rfl, rfl, Or.inr rfl⟩
+        · exact ⟨b, by rw [put_get?_ne _ _ e]; exact hk, Stable.refl b⟩
+      · intro b hb; rw [put_get?_self _ _ hisz] at hb; cases hb; rfl
+    · have hnz := nz_put (v := { pi with chain := 0 }) hpi
+      simp only [bne_iff_ne, ne_eq, hc, not_false_eq_true, if_true, not_true_eq_false, if_false] at hnz
+      obtain ⟨hs2, hnz2, hd1, hd2, hfr2, hst2, _⟩ := ih _ _ _ _ hrec
+      have hp1i : (put p i { pi with chain := 0 })[i]? = some { pi with chain := 0 } := put_get?_self _ _ hisz
+      have hp2i : p2[i]? = some { pi with chain := 0 } := hfr2 i _ hp1i rfl
+      obtain ⟨hj, hjlen⟩ := target_some ht
+      have hjne : j ≠ i := by
+        intro e; subst e
+        have : pi.chain = 0 := by omega
+        exact hc this
+      -- p2[j] exists?  attachStep may return p2 unchanged without reading j, so go by cases on q
+      have hqshape : q = p2 ∨ ∃ v, q = put p2 i v ∧ Stable { pi with chain := 0 } v := by
+        unfold attachStep at hatt
+        have hgi := get_ok_iff.mpr hp2i
+        split at hatt
+        · rw [hgi] at hatt
+          split at hatt
+          · rename_i e _ he; cases he
+          · cases hatt
+          · rename_i qi qj hq1 hq2
+            cases hq1
+            split at hatt
+            · cases hatt
+            · split at hatt
+              · split at hatt
+                · cases hatt
+                · simp only [Except.ok.injEq] at hatt
+                  exact Or.inr ⟨_, hatt.symm, rfl, rfl, rfl, Or.inl rfl⟩
+              · split at hatt
+                · cases hatt
+                · simp only [Except.ok.injEq] at hatt
+                  exact Or.inr ⟨_, hatt.symm, rfl, rfl, rfl, Or.inl rfl⟩
+        · split at hatt
+          · rw [hgi] at hatt
+            split at hatt
+            · rename_i e _ he; cases he
+            · cases hatt
+            · rename_i qi qj hq1 hq2
+              cases hq1
+              split at hatt
+              · simp only [Except.ok.injEq] at hatt
+                exact Or.inr ⟨_, hatt.symm, rfl, rfl, rfl, Or.inl rfl⟩
+              · simp only [Except.ok.injEq] at hatt
+                exact Or.inr ⟨_, hatt.symm, rfl, rfl, rfl, Or.inl rfl⟩
+          · simp only [Except.ok.injEq] at hatt
+            exact Or.inl hatt.symm
+      have hi2 : i < p2.size := by rw [hs2]; simpa using hisz
+      -- facts about q relative to p2
+      have hq : q.size = p2.size ∧ nz q = nz p2 ∧ (∀ k, k ≠ i → q[k]? = p2[k]?) ∧
+          ∃ v, q[i]? = some v ∧ Stable { pi with chain := 0 } v := by
+        rcases hqshape with rfl | ⟨v, rfl, hv⟩
+        · exact ⟨rfl, rfl, fun _ _ => rfl, _, hp2i, Stable.refl _⟩
+        · refine ⟨by simp, ?_, fun k hk => put_get?_ne _ _ (Ne.symm hk), v, put_get?_self _ _ hi2, hv⟩
+          have := nz_put (v := v) hp2i
+          obtain ⟨_, _, _, h4⟩ := hv
+          have hv0 : v.chain = 0 := by rcases h4 with h4 | h4 <;> simpa using h4
+          simp [hv0] at this
+          exact this
+      obtain ⟨hqs, hqnz, hqne, v, hqi, hv⟩ := hq
+      refine ⟨by rw [hqs, hs2]; simp, by omega, by omega, by omega, ?_, ?_, ?_⟩
+      · intro k b hk hb
+        have hki : k ≠ i := by intro e; subst e; rw [hpi] at hk; cases hk; exact hc hb
+        rw [hqne k hki]
+        exact hfr2 k b (by rw [put_get?_ne _ _ (Ne.symm hki)]; exact hk) hb
+      · intro k b hk
+        by_cases e : k = i
+        · subst e; rw [hpi] at hk; cases hk
+          refine ⟨v, hqi, ?_⟩
+          exact Stable.trans (b := { pi with chain := 0 }) ⟨rfl, rfl, rfl, Or.inr rfl⟩ hv
+        · obtain ⟨b', hb', hst⟩ := hst2 k b (by rw [put_get?_ne _ _ (Ne.symm e)]; exact hk)
+          exact ⟨b', by rw [hqne k e]; exact hb', hst⟩
+      · intro b hb; rw [hqi] at hb; cases hb
+        obtain ⟨_, _, _, h4⟩ := hv
+        rcases h4 with h4 | h4 <;> simpa using h4
+
+theorem sumAdv_err_oob {p : Array Pos} {lo n : Nat} {e : Err} (h : sumAdv p lo n = .error e) : e = .oob := by
+  induction n generalizing lo with
+  | zero => cases h
+  | succ n ih =>
+    simp only [sumAdv, bind, Except.bind] at h
+    split at h
+    · rename_i hx; cases h; exact (get_err hx).1
+    · split at h
+      · rename_i hx; cases h; exact ih hx
+      · cases h
+
+theorem attachStep_err {d : Dir} {kind : Nat} {p : Array Pos} {i j : Nat} {e : Err}
+    (h : attachStep d kind p i j = .error e) : e ≠ .fuel := by
+  unfold attachStep at h
+  split at h
+  · split at h
+    · rename_i hx; cases h; rw [(get_err hx).1]; decide
+    · rename_i h1 h2; cases h; first | (rw [(get_err h1).1]; decide) | (rw [(get_err h2).1]; decide)
+    · split at h
+      · cases h; decide
+      · split at h
+        · split at h
+          · rename_i hx; cases h; rw [sumAdv_err_oob hx]; decide
+          · cases h
+        · split at h
+          · rename_i hx; cases h; rw [sumAdv_err_oob hx]; decide
+          · cases h
+  · split at h
+    · split at h
+      · rename_i hx; cases h; rw [(get_err hx).1]; decide
+      · rename_i h1 h2; cases h; first | (rw [(get_err h1).1]; decide) | (rw [(get_err h2).1]; decide)
+      · split at h <;> cases h
+    · cases h
+
+theorem propagate_fuel (len : Nat) (d : Dir) :
+    ∀ (fuel : Nat) (p : Array Pos) (i : Nat), nz p < fuel → propagate fuel p len i d ≠ .error .fuel := by
+  intro fuel
+  induction fuel with
+  | zero => intro p i h; omega
+  | succ fuel ih =>
+    intro p i hf
+    unfold propagate
+    split
+    · rename_i e he; intro h; cases h; have := (get_err he).1; cases this
+    · rename_i pi hg
+      have hpi := get_ok_iff.mp hg
+      split
+      · intro h; cases h
+      · rename_i hc
+        have hnz := nz_put (v := { pi with chain := 0 }) hpi
+        simp only [bne_iff_ne, ne_eq, hc, not_false_eq_true, if_true, not_true_eq_false, if_false] at hnz
+        simp only
+        split
+        · intro h; cases h
+        · rename_i j _
+          have := ih (put p i { pi with chain := 0 }) j (by omega)
+          split
+          · rename_i e he; intro h; cases h; exact this he
+          · rename_i p2 dep' _
+            split
+            · rename_i e he; intro h; cases h
+              exact attachStep_err he rfl
+            · intro h; cases h
+
+
+/-! ### propagate: functional specification -/
+
+
+/-- spec of one node's final offsets: `a` = the entry of the original array `o` at `k`, `b` = the entry of
+    the current array `p` at `k`; the attachment target must already be final (`chain = 0`). -/
+def RelAt (d : Dir) (o : Array Pos) (len : Nat) (p : Array Pos) (k : Nat) (a b : Pos) : Prop :=
+  if a.chain = 0 then b.xo = a.xo ∧ b.yo = a.yo
+  else match target k a.chain len with
+    | none => b.xo = a.xo ∧ b.yo = a.yo
+    | some j => ∃ c, p[j]? = some c ∧ c.chain = 0 ∧
+        (b.xo, b.yo) = attachOff d a.atype a c (advSum o j (k - j)) (advSum o (j + 1) (k - j))
+
+theorem RelAt.transfer {d : Dir} {o : Array Pos} {len : Nat} {p p' : Array Pos} {k : Nat} {a b : Pos}
+    (h : RelAt d o len p k a b)
+    (ht : ∀ j c, a.chain ≠ 0 → target k a.chain len = some j → p[j]? = some c → c.chain = 0 → p'[j]? = some c) :
+    RelAt d o len p' k a b := by
+  unfold RelAt at *
+  split
+  · rename_i hc; simpa [hc] using h
+  · rename_i hc
+    simp only [hc, if_false] at h
+    split
+    · rename_i htn; simpa [htn] using h
+    · rename_i j htj
+      simp only [htj] at h
+      obtain ⟨c, hc1, hc2, hc3⟩ := h
+      exact ⟨c, ht j c hc htj hc1 hc2, hc2, hc3⟩
+
+def Same (o p : Array Pos) : Prop :=
+  p.size = o.size ∧ ∀ (k : Nat) (a : Pos), o[k]? = some a → ∃ b, p[k]? = some b ∧ Stable a b
+
+def InvB (d : Dir) (o : Array Pos) (len : Nat) (rank : Nat → Nat) (B : Nat) (p : Array Pos) : Prop :=
+  ∀ (k : Nat) (b : Pos), rank k < B → p[k]? = some b →
+    (o[k]? = some b ∨ ∃ a, o[k]? = some a ∧ b.chain = 0 ∧ RelAt d o len p k a b)
+
+theorem advSum_same {o p : Array Pos} (h : Same o p) (lo n : Nat) : advSum p lo n = advSum o lo n := by
+  apply advSum_congr
+  intro k _ _
+  cases hk : o[k]? with
+  | none =>
+    have : p[k]? = none := by
+      have : o.size ≤ k := by
+        by_cases hh : k < o.size
+        · simp [hh] at hk
+        · omega
+      exact Array.getElem?_eq_none (by rw [h.1]; exact this)
+    simp [this]
+  | some a =>
+    obtain ⟨b, hb, hst⟩ := h.2 k a hk
+    simp [hb, hst.1, hst.2.1]
+
+theorem attachOff_congr (d : Dir) (kind : Nat) (a a' c : Pos) (sf sb : Int × Int)
+    (hx : a'.xo = a.xo) (hy : a'.yo = a.yo) : attachOff d kind a' c sf sb = attachOff d kind a c sf sb := by
+  unfold attachOff; rw [hx, hy]
+
+
+
+theorem propagate_inv (d : Dir) (o : Array Pos) (len : Nat) (rank : Nat → Nat) (hlen : len ≤ o.size)
+    (hacyc : ∀ (k : Nat) (a : Pos) (j : Nat), o[k]? = some a → a.chain ≠ 0 → target k a.chain len = some j → rank j < rank k)
+    (hmark : ∀ (k : Nat) (a : Pos) (j : Nat), o[k]? = some a → a.chain ≠ 0 → a.atype = ATTACH_MARK →
+      target k a.chain len = some j → j < k) :
+    ∀ (fuel : Nat) (p : Array Pos) (i B : Nat), nz p < fuel → i < len → rank i < B → Same o p → InvB d o len rank B p →
+      ∃ q dep, propagate fuel p len i d = .ok (q, dep) ∧ Same o q ∧ InvB d o len rank B q ∧
+        (∀ k, rank i < rank k → q[k]? = p[k]?) := by
+  intro fuel
+  induction fuel with
+  | zero => intro p i B h; omega
+  | succ fuel ih =>
+    intro p i B hfuel hi hB hsame hinv
+    have hisz : i < p.size := by rw [hsame.1]; omega
+    have hpi : p[i]? = some p[i] := by simp [hisz]
+    generalize p[i] = pi at hpi
+    unfold propagate
+    rw [get_ok_iff.mpr hpi]
+    simp only
+    by_cases hc : pi.chain = 0
+    · simp only [hc, if_true]
+      exact ⟨p, 1, rfl, hsame, hinv, fun _ _ => rfl⟩
+    · simp only [hc, if_false]
+      -- node i is untouched
+      have hoi : o[i]? = some pi := by
+        rcases hinv i pi hB hpi with h | ⟨a, _, h0, _⟩
+        · exact h
+        · exact absurd h0 hc
+      have hnz := nz_put (v := { pi with chain := 0 }) hpi
+      simp only [bne_iff_ne, ne_eq, hc, not_false_eq_true, if_true, not_true_eq_false, if_false] at hnz
+      let p1 := put p i { pi with chain := 0 }
+      have hnz1 : nz p1 + 1 = nz p := hnz
+      have hp1i : p1[i]? = some { pi with chain := 0 } := put_get?_self _ _ hisz
+      have hp1ne : ∀ k, k ≠ i → p1[k]? = p[k]? := fun k hk => put_get?_ne _ _ (Ne.symm hk)
+      have hsame1 : Same o p1 := by
+        refine ⟨by simp [p1, hsame.1], ?_⟩
+        intro k a hk
+        by_cases e : k = i
+        · subst e; rw [hoi] at hk; cases hk
+          exact ⟨_, hp1i, rfl, rfl, rfl, Or.inr rfl⟩
+        · rw [hp1ne k e]; exact hsame.2 k a hk
+      -- Done/untouched nodes of p other than i keep their status in p1 (their targets are final, hence ≠ i)
+      have hkeep : ∀ (k : Nat) (b : Pos), k ≠ i → p[k]? = some b →
+          (o[k]? = some b ∨ ∃ a, o[k]? = some a ∧ b.chain = 0 ∧ RelAt d o len p k a b) →
+          (o[k]? = some b ∨ ∃ a, o[k]? = some a ∧ b.chain = 0 ∧ RelAt d o len p1 k a b) := by
+        intro k b _ _ h
+        rcases h with h | ⟨a, ha, hb0, hrel⟩
+        · exact Or.inl h
+        · refine Or.inr ⟨a, ha, hb0, hrel.transfer ?_⟩
+          intro j c _ _ hjc hc0
+          have : j ≠ i := by intro e; subst e; rw [hpi] at hjc; cases hjc; exact hc hc0
+          rw [hp1ne j this]; exact hjc
+      cases ht : target i pi.chain len with
+      | none =>
+        simp only
+        refine ⟨p1, 1, rfl, hsame1, ?_, fun k hk => hp1ne k (by intro e; subst e; omega)⟩
+        intro k b hkB hkb
+        by_cases e : k = i
+        · subst e; rw [hp1i] at hkb; cases hkb
+          refine Or.inr ⟨pi, hoi, rfl, ?_⟩
+          unfold RelAt; simp [hc, ht]
+        · rw [hp1ne k e] at hkb
+          exact hkeep k b e hkb (hinv k b hkB hkb)
+      | some j =>
+        simp only
+        have hrj : rank j < rank i := hacyc i pi j hoi hc ht
+        obtain ⟨hjeq, hjlen⟩ := target_some ht
+        have hjne : j ≠ i := by intro e; subst e; exact hc (by omega)
+        have hinv1 : InvB d o len rank (rank i) p1 := by
+          intro k b hk hkb
+          have e : k ≠ i := by intro e; subst e; omega
+          rw [hp1ne k e] at hkb
+          exact hkeep k b e hkb (hinv k b (by omega) hkb)
+        obtain ⟨p2, dep', hrec, hsame2, hinv2, hframe2⟩ := ih p1 j (rank i) (by omega) hjlen hrj hsame1 hinv1
+        obtain ⟨hs2, _, _, _, hfr2, _, hj0⟩ := propagate_basic len d _ _ _ _ _ hrec
+        rw [hrec]
+        simp only
+        have hp2i : p2[i]? = some { pi with chain := 0 } := by rw [hframe2 i hrj]; exact hp1i
+        have hi2 : i < p2.size := lt_of_get? hp2i
+        have hj2 : j < p2.size := by rw [hsame2.1]; omega
+        have hp2j : p2[j]? = some p2[j] := by simp [hj2]
+        generalize p2[j] = qj at hp2j
+        have hqj0 : qj.chain = 0 := hj0 qj hp2j
+        have hm : pi.atype = ATTACH_MARK → j < i := fun hk => hmark i pi j hoi hc hk ht
+        obtain ⟨q, hq⟩ := attachStep_total (d := d) (kind := pi.atype) hi2 hj2 hm
+        rw [hq]
+        simp only
+        obtain ⟨v, rfl, hv1, hv2, hv3, hv4, hv5, _⟩ := attachStep_spec hp2i hp2j hq
+        have hqi : (put p2 i v)[i]? = some v := put_get?_self _ _ hi2
+        have hqne : ∀ k, k ≠ i → (put p2 i v)[k]? = p2[k]? := fun k hk => put_get?_ne _ _ (Ne.symm hk)
+        refine ⟨_, _, rfl, ?_, ?_, ?_⟩
+        · -- Same
+          refine ⟨by simp [hsame2.1], ?_⟩
+          intro k a hk
+          by_cases e : k = i
+          · subst e; rw [hoi] at hk; cases hk
+            exact ⟨v, hqi, hv1, hv2, hv4, Or.inr hv3⟩
+          · rw [hqne k e]; exact hsame2.2 k a hk
+        · -- InvB
+          intro k b hkB hkb
+          by_cases e : k = i
+          · subst e; rw [hqi] at hkb; cases hkb
+            refine Or.inr ⟨pi, hoi, hv3, ?_⟩
+            unfold RelAt
+            simp only [hc, if_false, ht]
+            refine ⟨qj, by rw [hqne j hjne]; exact hp2j, hqj0, ?_⟩
+            rw [hv5, advSum_same hsame2, advSum_same hsame2]
+            exact attachOff_congr d pi.atype pi _ qj _ _ rfl rfl
+          · rw [hqne k e] at hkb
+            by_cases hrk : rank k < rank i
+            · rcases hinv2 k b hrk hkb with h | ⟨a, ha, hb0, hrel⟩
+              · exact Or.inl h
+              · refine Or.inr ⟨a, ha, hb0, hrel.transfer ?_⟩
+                intro j' c hac htj' hjc _
+                have : rank j' < rank k := hacyc k a j' ha hac htj'
+                have : j' ≠ i := by intro e; subst e; omega
+                rw [hqne j' this]; exact hjc
+            · have hk2 : p2[k]? = p[k]? := by rw [hframe2 k (by omega)]; exact hp1ne k e
+              rw [hk2] at hkb
+              rcases hinv k b hkB hkb with h | ⟨a, ha, hb0, hrel⟩
+              · exact Or.inl h
+              · refine Or.inr ⟨a, ha, hb0, hrel.transfer ?_⟩
+                intro j' c _ _ hjc hc0
+                have hne : j' ≠ i := by intro e; subst e; rw [hpi] at hjc; cases hjc; exact hc hc0
+                rw [hqne j' hne]
+                exact hfr2 j' c (by rw [hp1ne j' hne]; exact hjc) hc0
+        · intro k hk
+          have e : k ≠ i := by intro e; subst e; omega
+          rw [hqne k e, hframe2 k (by omega)]; exact hp1ne k e
+
+
+
+theorem rank_bound (rank : Nat → Nat) (n : Nat) : ∃ B, ∀ k, k < n → rank k < B := by
+  induction n with
+  | zero => exact ⟨0, fun k h => by omega⟩
+  | succ n ih =>
+    obtain ⟨B, hB⟩ := ih
+    refine ⟨max B (rank n + 1), fun k hk => ?_⟩
+    by_cases e : k = n
+    · subst e; omega
+    · have := hB k (by omega); omega
+
+theorem Same.refl (o : Array Pos) : Same o o := ⟨rfl, fun _ a h => ⟨a, h, Stable.refl a⟩⟩
+
+theorem finishLoop_inv (d : Dir) (o : Array Pos) (len : Nat) (rank : Nat → Nat) (B : Nat) (hlen : len ≤ o.size)
+    (hB : ∀ k, k < len → rank k < B)
+    (hacyc : ∀ (k : Nat) (a : Pos) (j : Nat), o[k]? = some a → a.chain ≠ 0 → target k a.chain len = some j → rank j < rank k)
+    (hmark : ∀ (k : Nat) (a : Pos) (j : Nat), o[k]? = some a → a.chain ≠ 0 → a.atype = ATTACH_MARK →
+      target k a.chain len = some j → j < k) :
+    ∀ (n i : Nat) (p : Array Pos) (dmax : Nat), i + n ≤ len → Same o p → InvB d o len rank B p →
+      (∀ (k : Nat) (b : Pos), k < i → p[k]? = some b → b.chain = 0) →
+      ∃ q dm, finishLoop p len d i n dmax = .ok (q, dm) ∧ Same o q ∧ InvB d o len rank B q ∧
+        (∀ (k : Nat) (b : Pos), k < i + n → q[k]? = some b → b.chain = 0) ∧ dm ≤ max dmax (nz p + 1) := by
+  intro n
+  induction n with
+  | zero =>
+    intro i p dmax _ hs hinv hz
+    exact ⟨p, dmax, rfl, hs, hinv, hz, by omega⟩
+  | succ n ih =>
+    intro i p dmax hin hs hinv hz
+    have hfuel : nz p < fuelFor p := by have := nz_le_size p; unfold fuelFor; omega
+    obtain ⟨q1, dep, hprop, hs1, hinv1, _⟩ :=
+      propagate_inv d o len rank hlen hacyc hmark (fuelFor p) p i B hfuel (by omega) (hB i (by omega)) hs hinv
+    obtain ⟨_, hnz1, _, hdep, hfr, _, hi0⟩ := propagate_basic len d _ _ _ _ _ hprop
+    have hz1 : ∀ (k : Nat) (b : Pos), k < i + 1 → q1[k]? = some b → b.chain = 0 := by
+      intro k b hk hkb
+      by_cases e : k = i
+      · subst e; exact hi0 b hkb
+      · have hkp : k < p.size := by rw [hs.1]; omega
+        have hpk : p[k]? = some p[k] := by simp [hkp]
+        have h0 := hz k _ (by omega) hpk
+        have := hfr k _ hpk h0
+        rw [this] at hkb; cases hkb; exact h0
+    obtain ⟨q, dm, hloop, hs2, hinv2, hz2, hdm⟩ := ih (i + 1) q1 (max dmax dep) (by omega) hs1 hinv1 hz1
+    refine ⟨q, dm, ?_, hs2, hinv2, ?_, by omega⟩
+    · simp only [finishLoop, hprop, bind, Except.bind]; exact hloop
+    · intro k b hk; exact hz2 k b (by omega)
+
+/-- what `position_finish_offsets` computes on an acyclic attachment structure whose marks attach backwards -/
+theorem finish_spec (d : Dir) (o : Array Pos) (len : Nat) (rank : Nat → Nat) (hlen : len ≤ o.size)
+    (hacyc : ∀ (k : Nat) (a : Pos) (j : Nat), o[k]? = some a → a.chain ≠ 0 → target k a.chain len = some j → rank j < rank k)
+    (hmark : ∀ (k : Nat) (a : Pos) (j : Nat), o[k]? = some a → a.chain ≠ 0 → a.atype = ATTACH_MARK →
+      target k a.chain len = some j → j < k) :
+    ∃ q dm, positionFinishOffsets o len d true = .ok (q, dm) ∧ Same o q ∧ dm ≤ nz o + 1 ∧
+      ∀ (k : Nat) (a : Pos), k < len → o[k]? = some a →
+        ∃ b, q[k]? = some b ∧ b.chain = 0 ∧ RelAt d o len q k a b := by
+  obtain ⟨B, hB⟩ := rank_bound rank len
+  have hinv0 : InvB d o len rank B o := fun k b _ h => Or.inl h
+  obtain ⟨q, dm, hloop, hs, hinv, hz, hdm⟩ :=
+    finishLoop_inv d o len rank B hlen hB hacyc hmark len 0 o 0 (by omega) (Same.refl o) hinv0 (fun k b h => by omega)
+  refine ⟨q, dm, ?_, hs, by omega, ?_⟩
+  · simp [positionFinishOffsets, hloop]
+  · intro k a hk hka
+    obtain ⟨b, hb, _⟩ := hs.2 k a hka
+    have hb0 := hz k b (by omega) hb
+    refine ⟨b, hb, hb0, ?_⟩
+    rcases hinv k b (hB k hk) hb with h | ⟨a', ha', _, hrel⟩
+    · rw [hka] at h; cases h
+      unfold RelAt; simp [hb0]
+    · rw [hka] at ha'; cases ha'; exact hrel
+
+
+
+/-! ### pen model -/
+
+/-- what the client sees: the first `len` positions, reversed for backward directions
+    (`position` ends with `buffer.reverse()` when the direction is backward) -/
+def visible (q : Array Pos) (len : Nat) (d : Dir) : Array Pos :=
+  if d.isBackward then (q.extract 0 len).reverse else q.extract 0 len
+
+/-- index in `visible` of the glyph at buffer index `i` -/
+def outIdx (d : Dir) (len i : Nat) : Nat := if d.isBackward then len - 1 - i else i
+
+/-- pen model: the origin of output glyph `k` is the sum of the advances of the glyphs drawn before it
+    plus its own offset -/
+def penOrigin (out : Array Pos) (k : Nat) : Int × Int :=
+  let s := advSum out 0 k
+  let q := (out[k]?).getD {}
+  (s.1 + q.xo, s.2 + q.yo)
+
+theorem visible_eq (q : Array Pos) (len : Nat) (d : Dir) (h : len ≤ q.size) :
+    (finalReverse q len d).extract 0 len = visible q len d := by
+  have hm : min len q.size = len := Nat.min_eq_left h
+  unfold finalReverse visible reversePos
+  cases d.isBackward
+  · simp
+  · simp only [if_true]
+    split
+    · rename_i h2
+      apply Array.ext_getElem?
+      intro k
+      have : len = 0 ∨ len = 1 := by omega
+      rcases this with rfl | rfl
+      · simp
+      · by_cases hk : k = 0
+        · subst hk
+          have : 0 < q.size := by omega
+          simp [Array.getElem?_reverse, hm, this]
+        · rw [Array.getElem?_eq_none (by simp; omega), Array.getElem?_eq_none (by simp; omega)]
+    · apply Array.ext_getElem?
+      intro k
+      by_cases hk : k < len
+      · simp [Array.getElem?_extract, Array.getElem?_append, hm, hk]
+      · rw [Array.getElem?_eq_none (by simp [hm]; omega), Array.getElem?_eq_none (by simp [hm]; omega)]
+
+theorem advSum_extract (q : Array Pos) (len lo n : Nat) (h : lo + n ≤ len) (hl : len ≤ q.size) :
+    advSum (q.extract 0 len) lo n = advSum q lo n := by
+  have hm : min len q.size = len := Nat.min_eq_left hl
+  apply advSum_congr
+  intro k _ hk
+  have : k < len := by omega
+  have hq : k < q.size := by omega
+  simp [this, hm, hq]
+
+theorem advSum_one (p : Array Pos) (lo : Nat) :
+    advSum p lo 1 = (((p[lo]?).getD {}).xa, ((p[lo]?).getD {}).ya) := by
+  simp [advSum]
+
+theorem advSum_reverse (a : Array Pos) (m : Nat) (h : m ≤ a.size) :
+    advSum a.reverse 0 m = advSum a (a.size - m) m := by
+  induction m with
+  | zero => rfl
+  | succ m ih =>
+    rw [advSum_split a.reverse 0 m 1, ih (by omega), advSum_one]
+    have hrev : a.reverse[0 + m]? = a[a.size - (1 + m)]? := by
+      rw [Array.getElem?_reverse (by omega)]
+      congr 1; omega
+    rw [hrev]
+    have : m + 1 = 1 + m := by omega
+    rw [this, advSum_split a (a.size - (1 + m)) 1 m, advSum_one]
+    have h2 : a.size - (1 + m) + 1 = a.size - m := by omega
+    rw [h2]
+    ext <;> simp <;> omega
+
+
+
+theorem penOrigin_visible (q : Array Pos) (len : Nat) (d : Dir) (i : Nat) (b : Pos) (hl : len ≤ q.size)
+    (hi : i < len) (hb : q[i]? = some b) :
+    penOrigin (visible q len d) (outIdx d len i) =
+      if d.isBackward then ((advSum q (i + 1) (len - 1 - i)).1 + b.xo, (advSum q (i + 1) (len - 1 - i)).2 + b.yo)
+      else ((advSum q 0 i).1 + b.xo, (advSum q 0 i).2 + b.yo) := by
+  have hm : min len q.size = len := Nat.min_eq_left hl
+  have hiq : i < q.size := by omega
+  have hbq : q[i] = b := by simpa [hiq] using hb
+  unfold penOrigin visible outIdx
+  cases d.isBackward
+  · simp only [Bool.false_eq_true, if_false]
+    rw [advSum_extract q len 0 i (by omega) hl]
+    simp [Array.getElem?_extract, hi, hm, hiq, hbq]
+  · simp only [if_true]
+    have hsz : (q.extract 0 len).size = len := by simp [hm]
+    have h1 := advSum_reverse (q.extract 0 len) (len - 1 - i) (by rw [hsz]; omega)
+    rw [hsz] at h1
+    have h2 : len - (len - 1 - i) = i + 1 := by omega
+    rw [h2] at h1
+    rw [h1, advSum_extract q len (i + 1) (len - 1 - i) (by omega) hl]
+    have h3 : (q.extract 0 len).reverse[len - 1 - i]? = some b := by
+      rw [Array.getElem?_reverse (by rw [hsz]; omega)]
+      rw [hsz]
+      have : len - 1 - (len - 1 - i) = i := by omega
+      rw [this]
+      simp [Array.getElem?_extract, hi, hm, hiq, hbq]
+    rw [h3]; rfl
+
+theorem mark_coincide (d : Dir) (o : Array Pos) (len : Nat) (rank : Nat → Nat) (hlen : len ≤ o.size)
+    (hacyc : ∀ (k : Nat) (a : Pos) (j : Nat), o[k]? = some a → a.chain ≠ 0 → target k a.chain len = some j → rank j < rank k)
+    (hmark : ∀ (k : Nat) (a : Pos) (j : Nat), o[k]? = some a → a.chain ≠ 0 → a.atype = ATTACH_MARK →
+      target k a.chain len = some j → j < k) :
+    ∃ q dm, positionFinishOffsets o len d true = .ok (q, dm) ∧ dm ≤ nz o + 1 ∧
+      ∀ (i : Nat) (a : Pos) (j : Nat), i < len → o[i]? = some a → a.chain ≠ 0 → a.atype = ATTACH_MARK →
+        target i a.chain len = some j →
+        penOrigin (visible q len d) (outIdx d len i) =
+          ((penOrigin (visible q len d) (outIdx d len j)).1 + a.xo,
+           (penOrigin (visible q len d) (outIdx d len j)).2 + a.yo) := by
+  obtain ⟨q, dm, hfin, hsame, hdm, hspec⟩ := finish_spec d o len rank hlen hacyc hmark
+  refine ⟨q, dm, hfin, hdm, ?_⟩
+  intro i a j hi hoi hc hk ht
+  obtain ⟨b, hb, _, hrel⟩ := hspec i a hi hoi
+  have hji := hmark i a j hoi hc hk ht
+  unfold RelAt at hrel
+  simp only [hc, if_false, ht] at hrel
+  obtain ⟨c, hcj, _, hoff⟩ := hrel
+  have hlq : len ≤ q.size := by rw [hsame.1]; exact hlen
+  rw [penOrigin_visible q len d i b hlq hi hb, penOrigin_visible q len d j c hlq (by omega) hcj]
+  simp only [advSum_same hsame]
+  unfold attachOff at hoff
+  simp only [hk, if_true] at hoff
+  unfold Dir.isBackward
+  cases hf : d.isForward
+  · simp only [hf, Bool.false_eq_true, if_false, Prod.mk.injEq] at hoff
+    simp only [Bool.not_false, if_true]
+    have hs := advSum_split o (j + 1) (i - j) (len - 1 - i)
+    have e1 : i - j + (len - 1 - i) = len - 1 - j := by omega
+    have e2 : j + 1 + (i - j) = i + 1 := by omega
+    rw [e1, e2] at hs
+    rw [hs]
+    ext <;> simp <;> omega
+  · simp only [hf, if_true, Prod.mk.injEq] at hoff
+    simp only [Bool.not_true, Bool.false_eq_true, if_false]
+    have hs := advSum_split o 0 j (i - j)
+    have e1 : j + (i - j) = i := by omega
+    have e2 : 0 + j = j := by omega
+    rw [e1, e2] at hs
+    rw [hs]
+    ext <;> simp <;> omega
+
+
+end RbModel.Gpos
